@@ -35,6 +35,17 @@ def vary_temperatures(rng, spec, choices=(-8., -3., 0., 5., 20.)):
     return spec
 
 
+def lossy_pi_valves(rng, spec):
+    """give the pipe-attached valves of a generated spec a loss coefficient (the generator creates them with 0)"""
+    import copy
+    spec = copy.deepcopy(spec)
+    for fn, kw in spec["ops"]:
+        if fn == "create_valve" and kw.get("et") == "pi":
+            kw["loss_coefficient"] = rng.choice([0.5, 2.5])
+            spec["lossy_pi_valve"] = True
+    return spec
+
+
 def p_air(h):
     return 1.01325 * (1 - h * 0.0065 / 288.15) ** 5.255
 
@@ -73,9 +84,9 @@ def sections_of(net, tbl, idx):
     row = net[tbl].loc[idx]
     res = net["res_" + tbl].loc[idx]
     if tbl == "valve":
-        if row.get("et", "ju") != "ju":
-            return []
-        fj, tj = row["junction"], row["element"]
+        # a pipe-attached valve ("pi") sits between its junction and a valve node at the junction's height and temperature;
+        # res_valve.p_to_bar is the valve node's pressure (the attached pipe reports it as its own end pressure)
+        fj, tj = (row["junction"], row["element"]) if row.get("et", "ju") == "ju" else (row["junction"], row["junction"])
     else:
         fj, tj = row["from_junction"], row["to_junction"]
     if np.isnan(res["mdot_from_kg_per_s"]) or np.isnan(res["p_from_bar"]) or np.isnan(res["p_to_bar"]):
@@ -104,6 +115,9 @@ def sections_of(net, tbl, idx):
     return out
 
 
+API_ERRORS = []
+
+
 def internal_pressures(net, idx, n):
     """pressures of the n-1 internal nodes of pipe `idx`, in section order.  Pipe.get_internal_results is used when the
     pipe labels are 0..N-1 (it mixes row positions and labels otherwise: internal_nodes[pipe] is positional,
@@ -113,8 +127,13 @@ def internal_pressures(net, idx, n):
     from pandapipes.pf.pipeflow_setup import get_lookup
     labels = list(net.pipe.index)
     if labels == list(range(len(labels))):
-        ir = pp.Pipe.get_internal_results(net, np.array([idx]))
-        return [float(x) for x in ir["PINIT"][:, 1]]
+        try:
+            ir = pp.Pipe.get_internal_results(net, np.array([idx]))
+            return [float(x) for x in ir["PINIT"][:, 1]]
+        except IndexError:
+            # gas nets: get_internal_results indexes the NODE pit with branch positions (node_pit[m_nodes, TINIT]) and
+            # raises when a branch position exceeds the node count (reported; design_notes/C02.md)
+            API_ERRORS.append(("Pipe.get_internal_results", int(idx)))
     f, t = get_lookup(net, "branch", "from_to")["pipe"]
     bp, npit = net["_pit"]["branch"][f:t], net["_pit"]["node"]
     rows = bp[bp[:, B.ELEMENT_IDX] == idx]
@@ -163,6 +182,7 @@ def check_net(net, friction_model):
                 acc = means.setdefault((tbl, s["idx"]), {"s": s, "lam": [], "re": [], "dpf": [], "isothermal": True})
                 acc["lam"].append(lam)
                 acc["re"].append(re)
+                acc["re_per_m"] = s["d"] / (eta * a)
                 acc["isothermal"] &= s["t_i"] == s["t_i1"]
                 fric = lam * s["l"] / s["d"] + s["zeta"]
                 if not gas:
@@ -190,9 +210,13 @@ def check_net(net, friction_model):
         if tbl != "pipe" or s["l"] == 0:
             continue
         re_m, lam_m = sum(acc["re"]) / len(acc["re"]), sum(acc["lam"]) / len(acc["lam"])
-        if re_m > 1. and not math.isnan(s["re_rep"]) and not close(s["re_rep"], re_m, rt=1e-6, at=0.):
+        # reported Re / lambda are those of the last linearisation; the mass flow has moved by less than tol_m = 1e-10 kg/s
+        # since (bound used: 2 tol_m), which matters for small flows: dRe = D/(eta A) dm, |dlambda/lambda| <= |dRe/Re|
+        at_re = 2e-10 * acc["re_per_m"]
+        if re_m > 1. and not math.isnan(s["re_rep"]) and not close(s["re_rep"], re_m, rt=1e-6, at=at_re):
             bad.append(("reported Reynolds number != mean over sections of |m| D / (eta A)", s, s["re_rep"], re_m))
-        if re_m > 1. and friction_model != "colebrook" and not close(s["lambda_rep"], lam_m, rt=1e-5, at=0.):
+        if re_m > 1. and friction_model != "colebrook" and not close(s["lambda_rep"], lam_m, rt=1e-5,
+                                                                       at=lam_m * at_re / re_m):
             bad.append(("reported lambda != documented friction formula (%s), mean over sections" % friction_model, s,
                         s["lambda_rep"], lam_m))
     for (tbl, idx), acc in means.items():
